@@ -31,3 +31,9 @@ func (g *ICEGatherer) VerifAgentGatheringComplete() bool {
 
 	return err == nil && state == ice.GatheringStateComplete
 }
+
+// VerifGatherer exposes the PeerConnection's ICE gatherer (to list the
+// candidates of the current gathering cycle).
+func (pc *PeerConnection) VerifGatherer() *ICEGatherer {
+	return pc.iceGatherer
+}
